@@ -93,7 +93,7 @@ theorem hostParts_sub (pre hu : Str) (hne : hu ≠ []) (hdot : hu.getLast? ≠ s
 /-- lines 60-121 of suffix_trie.py are `SuffixTrie.split` on a non-special hostname -/
 theorem pslSplitT_eq_split (t : SNode Str) (hn : Str) (hs : Ural.isSpecialHost hn = false) :
     pslSplitT t hn = SuffixTrie.split t (some hn) := by
-  simp only [pslSplitT, SuffixTrie.split, SuffixTrie.walk, hs, Bool.false_eq_true, if_false]
+  simp only [pslSplitT, splitOfLen, hostLenT, SuffixTrie.split, SuffixTrie.walk, hs, Bool.false_eq_true, if_false]
   cases SNode.walkLen SuffixTrie.starStr t (SuffixTrie.hostParts hn).reverse <;> rfl
 
 /-- **`pslSplit` follows the algorithm**: `None` exactly when no rule matches, otherwise the
@@ -104,7 +104,7 @@ theorem pslSplit_spec (lines : List Str) (hn : Str) :
       (C08.hostLen lines hn).map (fun n =>
         (join SuffixTrie.dot ((SuffixTrie.hostParts hn).take ((SuffixTrie.hostParts hn).length - n)),
          join SuffixTrie.dot ((SuffixTrie.hostParts hn).drop ((SuffixTrie.hostParts hn).length - n)))) := by
-  simp only [pslSplit, pslSplitT, C08.walkLen_str]
+  simp only [pslSplit, pslSplitT, splitOfLen, hostLenT, C08.walkLen_str]
   cases hl : C08.hostLen lines hn with
   | none => rfl
   | some n =>
@@ -226,7 +226,7 @@ theorem outsideSuffix_spec (lines : List Str) (nu nv : Str)
     Lru.isSpecialHost (pyHostname nu) = false ∧ Lru.isSpecialHost (pyHostname nv) = false ∧
       ∀ m, C08.hostLen lines (pyHostname nv) = some m →
         m < (SuffixTrie.hostParts (pyHostname nu)).length := by
-  unfold outsideSuffixT suffixLenT at h
+  unfold outsideSuffixT outsideSuffixOf suffixLenT hostLenT at h
   rw [C08.walkLen_str] at h
   simp only [Bool.and_eq_true, Bool.not_eq_true'] at h
   refine ⟨h.1.1, h.1.2, ?_⟩
